@@ -107,6 +107,8 @@ func (stageComp) Corpus() [][]string {
 		// crash images of a complete reception + pipeline
 		{"base ?", "recover 0", "prepare a 3 0", "cut 2 recv a - - 3 b1.2.3 0 3 1.2.3 0", "observe", "recover 0", "settle 0", "observe"},
 		{"base ?", "recover 0", "prepare a 3 0", "recv a - - 3 b1.2.3 0 3 1.2.3 0", "process a 0", "cut 2 finh a 0", "observe", "recover 0", "settle 0", "observe", "status a 0 0"},
+		// crash right after the receive-log record, before the move: Recover must finish the delivery
+		{"base ?", "recover 0", "prepare a 3 0", "recv a - - 3 b1.2.3 0 3 1.2.3 0", "process a 0", "cut 1 finh a 0", "observe", "recover 0", "settle 0", "observe", "status a 0 0"},
 		{"base ?", "recover 0", "prepare a 3 0", "recv a - - 3 b1.2.3 0 3 1.2.3 0", "process a 0", "cut 3 finh a 0", "observe", "recover 0", "settle 0", "observe", "status a 0 0"},
 		// a delivery known only from the log of an earlier run must be remembered also after the
 		// cache was aged, and a retransmission of it is not delivered again
